@@ -270,8 +270,10 @@ class Dict:
         self,
         table: typing.Sequence[tuple[StrictValue, Key, Value]],
     ):
-        self.table = tuple(table)
-        self.mapping = {k: v for _, k, v in table}
+        # A later entry with an equal key replaces the earlier one.
+        entries = {k: (orig_key, k, v) for orig_key, k, v in table}
+        self.table = tuple(entries.values())
+        self.mapping = {k: v for _, k, v in self.table}
         self._key = None
         self._format = None
 
